@@ -45,8 +45,8 @@ MANIFEST = dict(
     note="Trusted: Lean kernel + propext/Classical.choice/Quot.sound; tools/extract; the differential harness and its allocator wrapper; "
          "glibc memcpy/memcmp/strlen; malloc returns fresh disjoint blocks. The model is hand-written: theorems are about the model, the "
          "correspondence run is testing. Strings longer than 4096 bytes are not exercised by the run. Tie by translation (new): _json_object_set_string_len is translated from clang's typed AST of the current source into Lean on every run (tools/extract/c2lean.py -> Generated/Translated.lean; the JC_STRING cast helper is inlined after its body was checked to be `return (void *)jso`) and Lemmas/TranslatedStr.lean proves on that definition, for every node state, length and answer of malloc: a refused set changes neither the length field nor the data pointer and frees nothing; the old separately allocated buffer is freed only after malloc has delivered the new one, or when the new contents are empty; bytes and terminating NUL go to the new buffer when one was allocated, else to the current storage; the length field is -len exactly when the contents live in a separately allocated buffer afterwards (set_too_long, set_grow_refused, set_grow_served, set_fits - exhaustive).",
-    technique="Lean 4 proof (representation invariant with frame conditions, refinement, induction over histories, event-log discipline)  + agreement theorems with Lean definitions translated from the current C source (clang AST) on every run"
-              "+ model/implementation correspondence run with allocator interposition",
+    technique="Lean 4 proof (representation invariant with frame conditions, refinement, induction over histories, event-log discipline) "
+              "+ model/implementation correspondence run with allocator interposition + agreement theorems with Lean definitions translated from the current C source (clang AST) on every run",
     design="6/C11")
 
 LENS = [0, 1, 7, 8, 9, 15, 16, 17, 31, 32, 33, 64, 4096]
